@@ -12,10 +12,10 @@ import (
 
 func init() {
 	register(&Property{
-		ID:  "C14",
-		Run: runC14,
+		ID:          "C14",
+		Run:         runC14,
 		Explanation: "Dividers (both versions): A1 every map update writes distribution[p] with p the element of the priorities parameter being visited or priorities[0], as an increment of the existing entry; A2 Rate conservation as credit/debit accounting on SSA values: the running remainder is a loop phi that starts at the dividend and is only ever reduced by exactly the amount just credited, under a guard remainder >= amount; the whole remainder is credited once, right before returning (truncation exit and final leftover to priorities[0]); hence credits sum to the dividend on every path; A3 Fair: one credit of `base` per priority, at most one extra unit, guarded by remainder != 0 and paired with remainder-1, the countdown never increases, so the extra units go to a prefix of the list; A5 Fair conservation by recognised definitions base = dividend/n, remainder = dividend - base*n (or dividend %% n), n = len(priorities), no early exit; A4 sibling agreement: the canonical effect summaries (key, amount, guards of every credit; parameters by position, phis by definition, commutative operands sorted) of v1 FairDivider/RateDivider/SumPriorities and v2 Fair/Rate/SumPriorities are equal modulo the declared difference in nil-map handling.",
-		NotDecided: []string{"Rate monotonicity along the list and closeness to the proportional share (float rounding of base*priority)", "overflow of base*priority beyond exactly representable products"},
+		NotDecided:  []string{"Rate monotonicity along the list and closeness to the proportional share (float rounding of base*priority)", "overflow of base*priority beyond exactly representable products"},
 	})
 }
 
